@@ -1591,11 +1591,18 @@ def state_table(repo, unparsed):
             ("graphics.is_pedantic", "self.graphics.is_pedantic=is_pedantic;"), ("loop_budget", "self.loop_budget.reset();")]
     for f, w in want:
         rows.append(("Engine::reset", f, "reset" if w in flat else "MISSING", "Engine::reset"))
-    for arm in ("ControlValue", "Glyph"):
-        mm = re.search(r"Program::%s=>\{" % arm, got[1]) if got else None
-        body = got[1][mm.end() - 1:match_close(got[1], mm.end() - 1)] if mm else ""
-        rows.append(("Engine::reset(%s)" % arm, "graphics.backward_compatibility",
-                     "assign" if re.search(r"self\.graphics\.backward_compatibility\s*=", body) else "MISSING", "Engine::reset"))
+    arms = {}
+    for arm in ("Font", "ControlValue", "Glyph"):
+        mm = re.search(r"Program::%s\s*=>\s*\{" % arm, got[1]) if got else None
+        arms[arm] = re.sub(r"\s+", "", got[1][mm.end():match_close(got[1], mm.end() - 1)]) if mm else ""
+    rows.append(("Engine::reset(ControlValue)", "graphics.backward_compatibility",
+                 "assign" if arms["ControlValue"] == "self.graphics.backward_compatibility=false;" else "MISSING", "Engine::reset"))
+    glyph_want = ("ifself.graphics.instruct_control&2!=0{self.graphics.reset_retained();}"
+                  "ifself.graphics.target.preserve_linear_metrics(){self.graphics.backward_compatibility=true;}"
+                  "elseifself.graphics.target.is_smooth(){self.graphics.backward_compatibility=(self.graphics.instruct_control&0x4)==0;}"
+                  "else{self.graphics.backward_compatibility=false;}")
+    rows.append(("Engine::reset(Glyph)", "graphics.backward_compatibility", "assign" if arms["Glyph"] == glyph_want else "MISSING", "Engine::reset"))
+    rows.append(("Engine::reset(Glyph)", "graphics.retained", "reset-if-instruct-control-bit-1" if arms["Glyph"] == glyph_want else "MISSING", "Engine::reset"))
     # small per-draw objects
     vsrc = rd("skrifa/src/outline/glyf/hint/value_stack.rs")
     got = find_fn(vsrc, r"pub fn new\(values: &'a mut \[i32\], is_pedantic: bool\)")
